@@ -2,9 +2,11 @@
 
 (1) execution-graph correspondence with cancel operations at arbitrary points and
     the C07 monitor on the real trace;
-(2) conductor level: the request arrives the way `maestro cancel` delivers it (the
-    .cancel.lock file appears between two polls of the real Conductor.monitor_study):
-    the lock must be consumed, cancel_jobs called, and the study must return CANCELLED;
+(2) conductor level: the request arrives the way `maestro cancel` delivers it (through the real
+    `maestro cancel <dirs>` command or Conductor.mark_cancelled; the .cancel.lock file appears
+    before the first poll or between two polls of the real Conductor.monitor_study, entered
+    directly, through `maestro run -fg` or through `maestro run` + `conductor`): the lock must be
+    consumed, cancel_jobs called, nothing submitted afterwards, and the study must return CANCELLED;
 (3) adapter side: the real Slurm / LSF / Flux / local cancel_jobs for empty and
     non-empty lists (shared with the scheduler model, see c16.cancel_cases)."""
 import os
@@ -23,11 +25,15 @@ def run(ctx, escalated=False):
     quick = ctx.tier == "quick" and not escalated
     cases = execprop.run(ctx, "C07", escalated, finish=False)
     extra = c16.cancel_cases(ctx.rng)
-    for k in range(50 if quick else 1500):
-        r = condsim.run(ctx, ctx.rng, k, cancel_prob=0.2)
+    for k in range(90 if quick else 2000):
+        r = condsim.run(ctx, ctx.rng, k, cancel_prob=0.2, entry=("direct", "fg", "bg")[k % 3])
         if r is None:
             continue
+        if r["cancelled"] is not None:
+            ctx.count("cancel-request:%s:%s" % ("before the first poll" if r["cancelled"] == 0 else "between polls",
+                                                (r["cancel_how"] or "").split(" <")[0]))
         extra.append(Case({"kind": "conductor", "spec": r["spec"], "polls": r["polls"], "returned": r["ret"],
+                           "entry": r["entry"], "options": r["options"], "cancel_how": r["cancel_how"],
                            "cancel_at_poll": r["cancelled"]}, [], [], r["mon"]["C07"][:3],
                           r["cancelled"] is not None))
         ctx.count("conductor:" + r["ret"])
